@@ -114,14 +114,16 @@ def index_values(length, bits):
     return [lo, lo + 1, -256, -8, -2, -1, 0, 1, length - 1, length, length + 1, 7, 8, 8 * length - 1, 8 * length, 255, 256, hi - 1, hi]
 
 
-def division_programs():
-    """v[0] = dividend, v[1] = divisor"""
+def division_programs(div_lit=None):
+    """v[0] = dividend, v[1] = divisor (or the literal div_lit, written into the source, under a run-time dividend)"""
     for op in ('/', '%'):
         for form in ('expr', 'expr_byte', 'opassign_var', 'opassign_byte_var', 'opassign_elem', 'opassign_byte_elem',
                      'opassign_global', 'in_condition', 'in_index', 'in_arg'):
             pre, gl = [], []
             main_params = [('v', Arr(INT, True), False)]
             a, b = arg(0), arg(1)
+            if div_lit is not None:
+                b = Lit(INT, div_lit, keep=True)
             body = [_mark('<')]
             if form == 'expr':
                 body += _show(Bin(op, a, b))
